@@ -30,8 +30,8 @@ ID_AL = "a01-."
 
 def bounds(tier):
     if tier == "quick":
-        return dict(name_len=3, num_hi=19, id_len=4)
-    return dict(name_len=4, num_hi=99, id_len=5)
+        return dict(name_len=3, num_hi=11, id_len=3)
+    return dict(name_len=3, num_hi=19, id_len=4)
 
 
 def is_digit(c):
